@@ -237,12 +237,14 @@ func (a *Acts) pegPhase(h uint32) int64 {
 	return 3
 }
 
-func (a *Acts) isV20(h uint32) bool      { return h >= a.get("V20HeightActivation") }
-func (a *Acts) snapshot(h uint32) bool   { return a.isV20(h) && h%144 == 0 }
-func (a *Acts) devPayout(h uint32) bool  { return h >= a.get("V20DevRewardsHeightActivation") && h%144 == 0 }
-func (a *Acts) txActive(h uint32) bool   { return h >= a.get("TransactionConversionActivation") }
-func (a *Acts) mint(h uint32) bool       { return h == a.get("V204EnhanceActivation") }
-func (a *Acts) burnMint(h uint32) bool   { return h == a.get("V204BurnMintedTokenActivation") }
+func (a *Acts) isV20(h uint32) bool    { return h >= a.get("V20HeightActivation") }
+func (a *Acts) snapshot(h uint32) bool { return a.isV20(h) && h%144 == 0 }
+func (a *Acts) devPayout(h uint32) bool {
+	return h >= a.get("V20DevRewardsHeightActivation") && h%144 == 0
+}
+func (a *Acts) txActive(h uint32) bool { return h >= a.get("TransactionConversionActivation") }
+func (a *Acts) mint(h uint32) bool     { return h == a.get("V204EnhanceActivation") }
+func (a *Acts) burnMint(h uint32) bool { return h == a.get("V204BurnMintedTokenActivation") }
 func (a *Acts) nullifyBurn(h uint32) bool {
 	return h == a.get("V20DevRewardsHeightActivation") || h == a.get("V202EnhanceActivation")
 }
